@@ -92,16 +92,77 @@ Theorem use_server_times_iff l :
   use_server_times l = true <-> (Z.of_N gf_min_t1_ns < li_t1 l /\ li_t1 l < li_t2 l /\ li_t2 l < li_lease l).
 Proof. unfold use_server_times, min_t1. rewrite !andb_true_iff, !Z.ltb_lt. tauto. Qed.
 
+(* float64 rounding moves a non-negative integer by at most its 2^53-th part *)
+Lemma round53_bounds n : 0 <= n -> n - n / 2 ^ 53 <= round53 n <= n + n / 2 ^ 53.
+Proof.
+  intros Hn. unfold round53.
+  destruct (Z.log2 n - 52 <=? 0) eqn:Ek.
+  - assert (0 <= n / 2 ^ 53) by (apply Z.div_pos; lia). lia.
+  - apply Z.leb_gt in Ek. set (k := Z.log2 n - 52) in *.
+    assert (Hn0 : 0 < n) by (destruct (Z.eq_dec n 0) as [->|]; [cbn in Ek; lia|lia]).
+    destruct (Z.log2_spec n Hn0) as [Hlo _].
+    assert (Hk : Z.log2 n = k + 52) by lia. rewrite Hk in Hlo.
+    assert (Hp : 0 < 2 ^ k) by (apply Z.pow_pos_nonneg; lia).
+    assert (Hh : 2 ^ k = 2 * 2 ^ (k - 1)) by (rewrite <- Z.pow_succ_r by lia; f_equal; lia).
+    assert (Hh0 : 0 < 2 ^ (k - 1)) by (apply Z.pow_pos_nonneg; lia).
+    assert (Hhalf : 2 ^ k / 2 = 2 ^ (k - 1)) by (rewrite Hh, Z.mul_comm, Z.div_mul; lia).
+    (* the half-unit is at most n / 2^53 *)
+    assert (Hbig : 2 ^ (k - 1) <= n / 2 ^ 53).
+    { apply Z.div_le_lower_bound; [lia|].
+      replace (2 ^ (k + 52)) with (2 ^ 53 * 2 ^ (k - 1)) in Hlo; [exact Hlo|].
+      rewrite <- Z.pow_add_r by lia. f_equal. lia. }
+    pose proof (Z.div_mod n (2 ^ k) ltac:(lia)) as Hdm.
+    pose proof (Z.mod_pos_bound n (2 ^ k) Hp) as Hr.
+    rewrite Hhalf. set (q := n / 2 ^ k) in *. set (r := n mod 2 ^ k) in *.
+    destruct (r <? 2 ^ (k - 1)) eqn:E1; [nia|].
+    destruct (2 ^ (k - 1) <? r) eqn:E2; [nia|].
+    destruct (Z.even q); nia.
+Qed.
+
+Lemma round53_nonneg n : 0 <= n -> 0 <= round53 n.
+Proof.
+  intros Hn. pose proof (round53_bounds n Hn) as [H _].
+  assert (n / 2 ^ 53 <= n) by (apply Z.div_le_upper_bound; [reflexivity|]; change (2 ^ 53) with 9007199254740992; lia). lia.
+Qed.
+
+Lemma round53_small n : 0 <= n < 2 ^ 53 -> round53 n = n.
+Proof.
+  intros [H0 H1]. unfold round53.
+  destruct (Z.eq_dec n 0) as [->|Hne]; [reflexivity|].
+  assert (Z.log2 n < 53) by (apply Z.log2_lt_pow2; lia).
+  replace (Z.log2 n - 52 <=? 0) with true by lia. reflexivity.
+Qed.
+
+(* T1 <= T2 <= lease also after the roundings *)
+Lemma fallback_ordered lease : 0 <= lease -> 0 <= half lease /\ half lease <= seven_eighths lease /\ seven_eighths lease <= lease.
+Proof.
+  intros Hl. unfold half, seven_eighths.
+  pose proof (round53_bounds lease Hl) as [F1 F2]. pose proof (round53_nonneg lease Hl) as F0.
+  set (f := round53 lease) in *.
+  pose proof (round53_bounds (f * 7) ltac:(lia)) as [G1 G2].
+  set (g := round53 (f * 7)) in *.
+  assert (D1 : 0 <= lease / 2 ^ 53 <= lease / 64).
+  { split; [apply Z.div_pos; lia|]. apply Z.div_le_compat_l; [lia|]. change (2 ^ 53) with 9007199254740992. lia. }
+  assert (D2 : 0 <= f * 7 / 2 ^ 53 <= f * 7 / 64).
+  { split; [apply Z.div_pos; lia|]. apply Z.div_le_compat_l; [lia|]. change (2 ^ 53) with 9007199254740992. lia. }
+  repeat split.
+  - apply Z.div_pos; lia.
+  - apply Z.div_le_lower_bound; [lia|]. assert (f / 2 * 2 <= f) by (pose proof (Z.mul_div_le f 2 ltac:(lia)); lia). lia.
+  - apply Z.div_le_upper_bound; lia.
+Qed.
+
+(* leases up to 2^53 / 7 ns (about 14.9 days) get exactly 50 % and 87.5 % (rounded down to the nanosecond) *)
+Lemma fallback_exact lease : 0 <= lease -> lease * 7 < 2 ^ 53 -> half lease = lease / 2 /\ seven_eighths lease = lease * 7 / 8.
+Proof.
+  intros H0 H1. unfold half, seven_eighths. rewrite (round53_small lease) by lia. rewrite round53_small by lia. split; reflexivity.
+Qed.
+
 Theorem deadlines_ordered now l : 0 <= li_lease l ->
   let '(t1, t2, tx) := deadlines now l in now <= t1 /\ t1 <= t2 /\ t2 <= tx /\ tx = now + li_lease l.
 Proof.
   intros Hl. unfold deadlines. destruct (use_server_times l) eqn:E.
   - apply use_server_times_iff in E as (E1 & E2 & E3). assert (0 <= Z.of_N gf_min_t1_ns) by (apply N2Z.is_nonneg). lia.
-  - unfold half, seven_eighths.
-    assert (0 <= li_lease l / 2) by (apply Z.div_pos; lia).
-    assert (li_lease l / 2 <= li_lease l * 7 / 8) by (apply Z.div_le_lower_bound; lia).
-    assert (li_lease l * 7 / 8 <= li_lease l) by (apply Z.div_le_upper_bound; lia).
-    repeat split; lia.
+  - destruct (fallback_ordered (li_lease l) Hl) as (A & B & C). repeat split; lia.
 Qed.
 
 Theorem deadlines_server_values now l :
